@@ -27,6 +27,9 @@ class RequestResponseRequester(StreamHandler, Requester):
         return self._future
 
     def frame_received(self, frame: Frame):
+        if self._future.done():
+            return  # already resolved or cancelled by the application: a late response must not raise
+
         if isinstance(frame, PayloadFrame):
             self._future.set_result(payload_from_frame(frame))
             self._finish_stream()
